@@ -347,8 +347,8 @@ def check(repo: Repo, run: Run) -> None:
                 combos = [(1, 1)] if cname == "UintType" else [(a, b) for a in (1, -1) for b in (1, -1)]
                 verdict, msg = True, []
                 inconc = None
+                n3 += len(combos)  # the floor counts the cells that must exist, not the ones the evaluator could follow
                 for ss, so in combos:
-                    n3 += 1
                     try:
                         res = SignEval(fn, {s: ss, o: so}).run()
                     except FloorOnNegative as ex:
@@ -460,6 +460,9 @@ def check(repo: Repo, run: Run) -> None:
     # (1.0 / (0.0 * -1.0) becomes +inf) -- rule shared with C10.R7
     from .c10 import check_absent_vs_falsy
 
+    # M10: the compiled runner applies every arithmetic operator it parses (a generator that folds `- -x` to `x` skips
+    # the range check of the inner negation and the refusal of a uint) -- instances shared with C03.T4
+    run.borrow(repo, "C03", "C01.M10", lambda o: o["rule"] == "C03.T4" and any(k in o["key"] for k in ("unary", "addition", "multiplication")), 3)
     run.floor("C01.M9", check_absent_vs_falsy(repo, run, "C01.M9", ("IntType", "UintType", "DoubleType")), 3)
 
     # M8 ---------------------------------------------------------------
